@@ -163,6 +163,7 @@ def check_property(prop, tier):
         rewrite_log=[x for r in results.values() for x in r.get('rewrite_log', [])],
         canaries={uid: r.get('canary', {}) for uid, r in results.items()},
         bounds={uid: r.get('bounds') for uid, r in results.items() if r.get('bounds')},
+        seed_retries={uid: dict(retries=r.get('seed_retries'), discharged_on_retry=r.get('discharged_on_retry', [])) for uid, r in results.items() if r.get('seed_retries')},
         undecided=[dict(unit=u, cause=c) for (u, c) in undecided],
         known_findings=[dict(obligation=fl['obligation'], what=e.get('what')) for (fl, e) in known],
         sensitivity=sens, native_crosscheck=crosscheck,
